@@ -1,5 +1,6 @@
 import Gonuts.Model.Sexp
 import Gonuts.Model.Token
+import Gonuts.Model.TokenWire
 /-!
   Driver commands `token.*` (stateless; core-only imports).
 
@@ -18,6 +19,8 @@ import Gonuts.Model.Token
     token.front  "hexbytes"                     -> ((v4 STAGE) (v3 STAGE)): what DecodeTokenV4 / DecodeTokenV3 do before Unmarshal
                                                    STAGE ::= (panic HI LEN) | (err invalid-v3) | (err invalid-v4)
                                                            | (err (b64err N)) | (payload "hex")
+    token.serialize token                       -> "cashuA…" / "cashuB…" with the modelled json/cbor encoders (Model.TokenWire)
+    token.marshal token                         -> "hex" of the modelled json.Marshal / cbor.Marshal output
     token.check-v3 token                        -> (ok) | (err invalid-v3): the check of DecodeTokenV3 after Unmarshal
     token.front-old "hexbytes"                  -> as token.front, for the code before the F9 fix
     token.hexdec "s" -> (ok "hex") | (err odd) | (err byte N)     token.hexenc "hex" -> "s"
@@ -178,6 +181,11 @@ def handle (cmd : String) (args : List Sexp) : Option Sexp :=
   | "token.front", [s] => do
     let s ← bytes? s
     some (.list [.list [.atom "v4", ofFront (frontV4 s)], .list [.atom "v3", ofFront (frontV3 s)]])
+  | "token.serialize", [t] => do some (.str (Wire.serialize (← token? t)))
+  | "token.marshal", [t] => do
+    match ← token? t with
+    | .v3 t3 => some (ofBytes (Wire.jsonTokenV3 t3))
+    | .v4 t4 => some (ofBytes (Wire.cborTokenV4 t4))
   | "token.check-v3", [t] => do
     match ← token? t with
     | .v3 t3 =>
